@@ -349,7 +349,19 @@ func runFramesFamily(c *runCtx) error {
 			list = append(list, sc)
 		}
 	}
+	// the complete script of every scenario, written before it runs: a scenario that hangs or panics leaves only the
+	// steps it got through in cases.txt, and a replay needs all of them
+	scripts, doneS := c.create("scripts.txt")
+	defer doneS()
 	for _, sc := range list {
+		for _, l := range sc.header() {
+			scripts.WriteString(l + "\n")
+		}
+		for _, st := range sc.steps {
+			scripts.WriteString("s " + st + "\n")
+		}
+		scripts.WriteString("end\n")
+		_ = scripts.Flush()
 		lines, err := execScenario(c, sc, nil)
 		for _, l := range lines {
 			cases.WriteString(l + "\n")
